@@ -351,6 +351,12 @@ class ListV(Obj):
         self.site = site
 
 
+class SetV(ListV):
+    """A mutable set created empty (`set()` / `set[T]()`) and filled by the program: insertion-ordered items, no duplicates.
+    (Set literals and set(iterable) stay frozensets: they are used as constants.)"""
+    __slots__ = ()
+
+
 class StreamV(Obj):
     """kind 'param': the caller's sink/source. kind 'local': io.BytesIO() allocated at `site`."""
     __slots__ = ("kind", "site", "uid", "init", "closed")
